@@ -563,6 +563,8 @@ func handle(f []string) string {
 		return handleE2E(f)
 	case "snd":
 		return handleSnd(f)
+	case "syn":
+		return handleSyn(f)
 	case "lwr":
 		return handleLwr(f)
 	case "dqs":
